@@ -202,6 +202,15 @@ func (st *state) nextStep(all []pos) []*step {
 		}
 		return one(st.mkSort(p))
 	case r < 98:
+		if r >= 96 { // from-raw with a shared raw input that is mutated afterwards (fromraw.go)
+			if seq := st.fromRawScenario(all); len(seq) > 0 {
+				if first := seq[0](); first != nil {
+					st.pendingSeq = seq[1:]
+					return one(first)
+				}
+			}
+			return nil
+		}
 		p := st.pickByType(filter(all, func(p *pos) bool { return p.ti.Has("FromRaw") && p.ti.Kind != rp.KRaw && thin(p) }))
 		if p == nil {
 			return nil
@@ -343,6 +352,17 @@ func (st *state) runProgram(nSteps int) {
 			continue
 		}
 		st.exec(ss[0], true)
+		// the remaining steps of a scenario, built lazily from the state the previous ones left
+		seq := st.pendingSeq
+		st.pendingSeq = nil
+		for _, next := range seq {
+			if st.failed {
+				break
+			}
+			if s := next(); s != nil {
+				st.exec(s, true)
+			}
+		}
 	}
 }
 
